@@ -11,4 +11,4 @@ class Check(PropertyCheck):
     assumptions = ["E-funds, E-actors, E-names, E-zero-coin (DESIGN.md section 4.5)"]
 
     def families(self, rng, tier):
-        return [("world.auth_matrix", fam_world.auth_matrix(rng, tier)), ("world.general", fam_world.general_histories(rng, tier, n_hist={"quick": 4, "thorough": 40}[tier]))]
+        return [("world.auth_matrix", fam_world.auth_matrix(rng.sub("auth_matrix"), tier)), ("world.general", fam_world.general_histories(rng.sub("general_histories"), tier, n_hist={"quick": 4, "thorough": 40}[tier]))]
